@@ -126,11 +126,23 @@ theorem locateR_of_walkR {c : Cfg} {fs : FS} {rp : List Comp} {p : Path} (h : wa
       refine ⟨.self p, ?_, rfl⟩
       rw [locateR_other hx', h]
 
+theorem step_cur {c : Cfg} {fs : FS} {cur : Path} (hs : canSearch c fs cur = true) :
+    step c fs cur .curDir = .ok cur := by
+  simp [step, hs]
+
+theorem step_cur_inv {c : Cfg} {fs : FS} {cur p : Path} (h : step c fs cur .curDir = .ok p) :
+    canSearch c fs cur = true ∧ p = cur := by
+  simp only [step] at h
+  split at h
+  · next hs => simp only [Except.ok.injEq] at h; exact ⟨hs, h.symm⟩
+  · cases h
+
 theorem walkR_dotted {c : Cfg} {fs : FS} {rp : List Comp} {p : Path} (dot : Bool)
-    (h : walkR c fs rp = .ok p) : walkR c fs (dotted rp dot) = .ok p := by
+    (h : walkR c fs rp = .ok p) (hs : dot = true → canSearch c fs p = true) :
+    walkR c fs (dotted rp dot) = .ok p := by
   cases dot
   · simpa [dotted] using h
-  · simp only [dotted, if_true]; rw [walkR_cons_ok h]; rfl
+  · simp only [dotted, if_true]; rw [walkR_cons_ok h]; exact step_cur (hs rfl)
 
 /-- `mkdir`, `is_dir` on a path that resolves completely: it exists. -/
 theorem mkdir_exists {c : Cfg} {fs : FS} {rp : List Comp} {p : Path} {m : Nat}
@@ -196,7 +208,9 @@ theorem step_keeps {c : Cfg} {fs fs' : FS} (hk : Keeps c fs fs') {cur p : Path} 
     (h : step c fs cur x = .ok p) : step c fs' cur x = .ok p := by
   cases x with
   | rootDir => exact h
-  | curDir => exact h
+  | curDir =>
+    obtain ⟨hs, hp⟩ := step_cur_inv h
+    rw [hp]; exact step_cur (canSearch_keeps hk hs)
   | parentDir =>
     obtain ⟨hs, hp⟩ := step_parent_inv h
     rw [hp]; exact step_parent (canSearch_keeps hk hs)
